@@ -4,6 +4,7 @@ import (
 	"encoding/gob"
 	"go/ast"
 	"go/token"
+	"sort"
 	"sync"
 )
 
@@ -81,9 +82,24 @@ func prepareFile(file *ast.File) *ast.File {
 	copy := *file
 	file = &copy
 
-	// Clear fields that can be easily reconstructed.
+	// Clear fields that can be easily reconstructed. Of the comments only those
+	// attached to a node can be reconstructed, so the free-standing ones (which
+	// may hold directives such as a detached go:linkname) are kept.
 	file.Imports = nil
-	file.Comments = nil
+	attached := map[*ast.CommentGroup]bool{}
+	ast.Inspect(file, func(n ast.Node) bool {
+		if cg, ok := n.(*ast.CommentGroup); ok {
+			attached[cg] = true
+		}
+		return true
+	})
+	var freeStanding []*ast.CommentGroup
+	for _, cg := range file.Comments {
+		if !attached[cg] {
+			freeStanding = append(freeStanding, cg)
+		}
+	}
+	file.Comments = freeStanding
 
 	// Clear fields that are deprecated.
 	file.Scope = nil
@@ -114,6 +130,10 @@ func unpackFile(file *ast.File) {
 		}
 		return true
 	})
+	// The serialized file carries the free-standing comments only, merge them
+	// with the ones found on the nodes in source order.
+	comments = append(comments, file.Comments...)
+	sort.SliceStable(comments, func(i, j int) bool { return comments[i].Pos() < comments[j].Pos() })
 	file.Imports = imports
 	file.Comments = comments
 }
